@@ -4,7 +4,7 @@ the Lean model, over cipher x MAC x zip x payload sizes (block edges, base64 rem
 the same requests with OpenSSL/zlib/bzlib judged by the property oracle; size-limit requests."""
 import json
 from ..vlib import leanlib, cbuild, judge
-from ..gen import g_dec
+from ..gen import g_dec, g_stages
 from . import _cred_common as cc
 from . import _cred_checks as K
 
@@ -145,6 +145,9 @@ def run(ctx):
         drv = leanlib.driver(ctx); h = cc.build_toy(ctx)
         judge.run_and_judge(ctx, "replay", rep.get("ops") or [], [h], [drv], what="round trip (replay)")
         return
+    # enc_compress (and the decode stages) translated with their primitive calls as events: the header says NONE exactly when the inner layer stays uncompressed
+    if g_stages.generate(ctx):
+        leanlib.check_props(ctx, "C02Stages")
     leanlib.check_props(ctx, "C01")
     drv = leanlib.driver(ctx)
     htoy = cc.build_toy(ctx)
